@@ -362,10 +362,26 @@ class BootEngine(object):
                               ("p2p_root", t.draw(65536)),
                               ("num_buf", t.draw(256)),
                               ("root_chip", t.draw(2))][t.draw(7)]
+                # (numbers in a struct file are decimal or 0x-hexadecimal)
+                tok = (hex(val) if t.draw(3) == 0 else str(val)).encode()
                 text = re.sub((r"(?m)^(%s\s+\S+\s+\S+\s+\S+\s+)\S+"
                                % fname).encode(),
-                              lambda mo: mo.group(1) + str(val).encode(),
-                              text)
+                              lambda mo: mo.group(1) + tok, text)
+            if t.draw(2) == 0:
+                # one-byte variables declared signed, with negative defaults
+                cands = [f.name for f in self.sv["fields"].values()
+                         if f.kind == "B" and f.length == 1 and
+                         f.offset < 128 and f.name not in intended and
+                         f.name not in ("root_chip",)]
+                for _ in range(1 + t.draw(2)):
+                    fname = cands[t.draw(len(cands))]
+                    val = -[1, 2, 9, 10, 16, 40, 100, 127, 128][t.draw(9)]
+                    text = re.sub(
+                        (r"(?m)^(%s\s+)C(\s+\S+\s+\S+\s+)\S+"
+                         % re.escape(fname)).encode(),
+                        lambda mo: mo.group(1) + b"c" + mo.group(2) +
+                        str(val).encode(), text)
+                w.probe("struct_file_signed_negative")
             if self.struct_paths and t.draw(2) == 0:
                 w.probe("struct_path_reused")
                 sname = self.struct_paths[t.draw(len(self.struct_paths))]
